@@ -340,21 +340,19 @@ func ens_sampleMarshal_ok(v *AVCSample, old_v AVCSample, ret0 []byte, ret1 error
 func req_sampleUnmarshal(v *AVCSample) bool { return v.lengthSizeMinusOne <= 3 }
 
 //@ invariant (*AVCSample).UnmarshalBinary 0
-func inv_sampleUnmarshal0(v *AVCSample, sizeOfNALU int) bool {
-	return v.lengthSizeMinusOne <= 3 && sizeOfNALU == int(v.lengthSizeMinusOne)+1
-}
+func inv_sampleUnmarshal0(v *AVCSample) bool { return v.lengthSizeMinusOne <= 3 }
 
 //@ decreases (*AVCSample).UnmarshalBinary 0
 func dec_sampleUnmarshal0(b []byte) int { return len(b) }
 
 //@ invariant (*AVCSample).UnmarshalBinary 1
-func inv_sampleUnmarshal1(v *AVCSample, sizeOfNALU int, b []byte, i int, length uint64) bool {
-	return v.lengthSizeMinusOne <= 3 && sizeOfNALU == int(v.lengthSizeMinusOne)+1 && i >= 0 && i <= sizeOfNALU && len(b) >= sizeOfNALU &&
-		length < 1<<32
+func inv_sampleUnmarshal1(v *AVCSample, b []byte, i int, length uint64) bool {
+	n := int(v.lengthSizeMinusOne) + 1 // the locals that cache it are not changed by the loops and need no invariant
+	return v.lengthSizeMinusOne <= 3 && i >= 0 && i <= n && len(b) >= n && length < 1<<32
 }
 
 //@ decreases (*AVCSample).UnmarshalBinary 1
-func dec_sampleUnmarshal1(sizeOfNALU int, i int) int { return sizeOfNALU - i }
+func dec_sampleUnmarshal1(v *AVCSample, i int) int { return int(v.lengthSizeMinusOne) + 1 - i }
 
 //@ assigns (*AVCSample).UnmarshalBinary v.NALUs, v.NALUs[*]
 // only inside the bounded stand-ins: the outer loop runs once per NAL unit (2) plus the exit test
